@@ -8,8 +8,10 @@ git -C /repo archive HEAD | tar -x -C $d
 (cd $d && git init -q . && git apply --whitespace=nowarn "$patch") || { echo "patch does not apply"; exit 8; }
 for p in "$@"; do
   s=$(date +%s)
+  cp evidence/$p.json $d/.evidence_$p.json 2>/dev/null   # the trial must not leave its evidence in /verif
   PYSPIKE_REPO=$d ./check $p --tier $tier --no-cache > /tmp/tryc_$p.log 2>&1
   rc=$?
+  cp $d/.evidence_$p.json evidence/$p.json 2>/dev/null
   e=$(date +%s)
   echo "$p exit=$rc wall=$((e-s))s :: $(grep -m2 -E 'VIOLATION|UNDECIDED|CHECKER-CRASH|not applicable' /tmp/tryc_$p.log | cut -c1-220 | tr '\n' ' ')"
 done
